@@ -729,6 +729,12 @@ def classify_compound(a, out):
     return f"groups={min(len(big), 3)}/{'effective' if eff else 'real'}/pathlen={min(deep, 4)}/{'one-sequence' if seqs else 'mixed-sequence'}"
 
 
+def _c16():
+    import props.c16 as c16
+
+    return c16
+
+
 CORRS = [
     Corr("gen.xsd_sites", gen_sites, impl_sites, canon=canon_sites, classify=classify_particle, describe="SchemaParser+SchemaMapper element sites and paths vs model"),
     Corr("gen.calc_paths", stage_gen("calc"), stage_impl("calc"), classify=classify_sites, describe="CalculateAttributePaths.process vs model"),
@@ -752,6 +758,9 @@ CORRS = [
          classify=classify_sanitize, describe="SanitizeAttributesDefaultValue.process_attribute on constructed attrs vs model"),
     Corr("gen.attr_fields", gen_attr_fields, impl_attr_fields,
          classify=classify_decls, describe="use/default/fixed: whole real pipeline + stand-in renderer: presence, init and default of the dataclass field of every declaration vs model"),
+    Corr("gen.enum_default", lambda rng, tier: _c16().gen_enum_default(rng, tier), lambda a: _c16().impl_enum_default(a),
+         classify=lambda a, o: _c16().classify_enum_default(a, o),
+         describe="xs:enumeration / DTD enumerations whose values collide after slugging: is_valid_enum_type placeholder and the member values field_default_enum / constant_name resolve it to vs model (shared with C16)"),
     Corr("gen.override", gen_override, impl_override,
          classify=classify_override, describe="ValidateAttributesOverrides.validate_override on constructed child/parent attrs vs model"),
     Corr("gen.restrict_attrs", gen_restrict, impl_restrict_attrs,
@@ -1157,6 +1166,10 @@ def _oracle_attr_docs_failures(a):
                     # an enumeration-typed field holds the member (or the members, for a list) of that value
                     import enum as _enum
 
+                    items = list(got) if isinstance(got, (list, tuple)) else [got]
+                    if got is not None and not all(isinstance(x, _enum.Enum) for x in items):
+                        yield f"document {doc}: attribute d{i} ({d}) is held as {got!r}, not as member(s) of its enumeration (retyped)"
+                        continue
                     if isinstance(got, (list, tuple)):
                         got = " ".join(x.value if isinstance(x, _enum.Enum) else str(x) for x in got) if got else None
                     elif isinstance(got, _enum.Enum):
